@@ -1,6 +1,14 @@
 """C15 - bit-field types hold only in-range values and never bleed into neighbours."""
-from ..core import Case
+from ..core import Case as _Case
 from ..gen import hx, rbytes
+
+
+def Case(lines, meta):
+    """every case carries the total length of its op lines: the generic shrinker of core cuts hex-looking
+    arguments (decimal numbers included) while the oracle works from the meta data, so a case whose lines no
+    longer match its meta data is not judged (the cases are single operations and need no shrinking)."""
+    meta["L"] = sum(len(l) for l in lines)
+    return _Case(lines, meta)
 
 ID = "C15"
 RULE = (
@@ -699,6 +707,8 @@ def _okhex(s):
 def oracle(c):
     out = []
     k = c.meta.get("k")
+    if sum(len(l) for l in c.lines) != c.meta.get("L"):
+        return out
     try:
         if k == "new":
             want = expect_bounded(c.meta["t"], c.meta["v"])
